@@ -1037,19 +1037,22 @@ class Interp(object):
         continue
       key = ('softmax',) + tuple(Z(a).get_id() if is_z(a) else a for a in row)
       if key not in c.softmax:
-        vs = [c.fresh_real('softmax') for _ in row]
-        c.assume(*[s_ > 0 for s_ in vs])
-        c.assume(z3.Sum(vs) == 1)
+        # floating point: a share whose logit is far below the largest underflows to exactly 0.  A case can ask
+        # for that regime (memo['softmax_zero'] = positions within the row that underflow).
+        zero = set(c.memo.get('softmax_zero', ()))
+        vs = [Fraction(0) if i in zero else c.fresh_real('softmax') for i in range(len(row))]
+        c.assume(*[s_ > 0 for s_ in vs if is_z(s_)])
+        c.assume(z3.Sum([Z(s_) for s_ in vs]) == 1)
         # order contract: larger logit -> larger probability
         for i in range(len(row)):
           for j in range(i + 1, len(row)):
-            c.assume(sym.b(sym.s_cmp('le', row[i], row[j])) == (vs[i] <= vs[j]))
-            c.assume(sym.b(sym.s_cmp('le', row[j], row[i])) == (vs[j] <= vs[i]))
+            c.assume(sym.b(sym.s_cmp('le', row[i], row[j])) == sym.b(sym.s_cmp('le', vs[i], vs[j])))
+            c.assume(sym.b(sym.s_cmp('le', row[j], row[i])) == sym.b(sym.s_cmp('le', vs[j], vs[i])))
         # functional consistency with earlier softmax calls of the same width: equal logits -> equal outputs
         for (row2, vs2) in c.softmax.values():
           if len(row2) == len(row):
             same = z3.And([sym.b(sym.s_cmp('eq', a_, b_)) for a_, b_ in zip(row, row2)])
-            c.assume(z3.Implies(same, z3.And([p_ == q_ for p_, q_ in zip(vs, vs2)])))
+            c.assume(z3.Implies(same, z3.And([sym.b(sym.s_cmp('eq', p_, q_)) for p_, q_ in zip(vs, vs2)])))
         c.softmax[key] = (row, vs)
         if 'Softmax' not in c.stubs:
           c.stubs.append('Softmax')
